@@ -4,7 +4,7 @@
   instantiated for the pure lexer with  μ(ch, s) = |remaining bytes| + (1 if ch ≠ EOF).
 -/
 import CedarGoProofs.Lemmas.C18Exact
-namespace CedarGo.Text
+namespace CedarGo.Text.Lx
 
 structure Meas {σ : Type} (S : Src σ) (μ : Rune → σ → Nat) : Prop where
   next_le : ∀ c s, μ (S.next s).1 (S.next s).2 ≤ μ c s
@@ -419,4 +419,4 @@ theorem rawTokens_ne_fuel (doc : List UInt8) (fails : Bool) : rawTokens doc fail
     simp [pureMeasure, PState.init, runeBOF, runeEOF]
   exact tokenizeLoop_nofuel pure_meas _ _ _ _ hμ hμ (by simp [pureSrc, PState.init])
 
-end CedarGo.Text
+end CedarGo.Text.Lx
